@@ -767,23 +767,23 @@ where
                         if let Err(e) = self.handle_insert_event(item) {
                             tracing::error!("fail to handle insert event, error: {}", e);
                             #[cfg(transparencies_stretto_verif)]
-                            crate::verif::counters::inc(&crate::verif::counters::HANDLER_ERRORS);
+                            self.verif_guard.inc(&crate::verif::counters::HANDLER_ERRORS);
                         }
                         #[cfg(transparencies_stretto_verif)]
-                        crate::verif::counters::inc(&crate::verif::counters::ITEMS_HANDLED);
+                        self.verif_guard.inc(&crate::verif::counters::ITEMS_HANDLED);
                     }
                     _ = cleanup_timer.next().fuse() => {
                         #[cfg(transparencies_stretto_verif)]
                         crate::verif::sched::point("proc:tick_arm");
                         #[cfg(transparencies_stretto_verif)]
-                        crate::verif::counters::inc(&crate::verif::counters::TICKS_STARTED);
+                        self.verif_guard.inc(&crate::verif::counters::TICKS_STARTED);
                         if let Err(e) = self.handle_cleanup_event() {
                             tracing::error!("fail to handle cleanup event, error: {}", e);
                             #[cfg(transparencies_stretto_verif)]
-                            crate::verif::counters::inc(&crate::verif::counters::HANDLER_ERRORS);
+                            self.verif_guard.inc(&crate::verif::counters::HANDLER_ERRORS);
                         }
                         #[cfg(transparencies_stretto_verif)]
-                        crate::verif::counters::inc(&crate::verif::counters::TICKS_DONE);
+                        self.verif_guard.inc(&crate::verif::counters::TICKS_DONE);
                     },
                     wg = self.clear_rx.recv().fuse() => {
                         #[cfg(transparencies_stretto_verif)]
@@ -791,7 +791,7 @@ where
                         if let Err(e) = CacheCleaner::new(&mut self).clean().await {
                             tracing::error!("fail to handle clear event, error: {}", e);
                             #[cfg(transparencies_stretto_verif)]
-                            crate::verif::counters::inc(&crate::verif::counters::HANDLER_ERRORS);
+                            self.verif_guard.inc(&crate::verif::counters::HANDLER_ERRORS);
                         }
                         #[cfg(transparencies_stretto_verif)]
                         crate::verif::sched::point("clear:after_drain");
@@ -803,7 +803,7 @@ where
                         crate::verif::sched::point("clear:after_store_clear");
                         self.metrics.clear();
                         #[cfg(transparencies_stretto_verif)]
-                        crate::verif::counters::inc(&crate::verif::counters::CLEARS_DONE);
+                        self.verif_guard.inc(&crate::verif::counters::CLEARS_DONE);
                         if let Ok(wg) = wg {
                             wg.done();
                         }
